@@ -23,10 +23,12 @@ import (
 func init() { props["C14"] = &Prop{Run: runC14, Replay: replayC14} }
 
 var c14lines = []string{"", "a", "b", "c", "", "-x", "+x", "<", "> y", "@@ -1 +1 @@", " ", "---", "diff a", "--- a", "+++ b",
-	"*** 1 ****", "***************", "\\ No newline at end of file", "3a4", "1,2c3", "- y", "! z", "+ w", "  "}
+	"*** 1 ****", "***************", "\\ No newline at end of file", "3a4", "1,2c3", "- y", "! z", "+ w", "  ",
+	"100% done", "%d items %s", "50%", strings.Repeat("long line ", 500), strings.Repeat("x", 4095), strings.Repeat("y", 4096) + " tail",
+	"tab\there", "\r", "caf\u00e9 \u2028 x"}
 
 var c14palettes = [][3]int{{1, 2, 3}, {4, 5, 6}, {7, 8, 9}, {10, 11, 12}, {13, 14, 15}, {16, 17, 18}, {19, 20, 21}, {22, 23, 1},
-	{4, 11, 10}, {5, 6, 2}, {9, 13, 12}, {1, 4, 23}}
+	{4, 11, 10}, {5, 6, 2}, {9, 13, 12}, {1, 4, 23}, {24, 25, 26}, {27, 28, 29}, {30, 31, 32}, {24, 27, 4}, {26, 29, 1}}
 
 type c14ctx struct {
 	pal [3]int
